@@ -55,7 +55,7 @@ theorem resolve_zero_malformed (fl : Flags) (fuel : Nat) (tt : TT) (last cs : Li
         simp [hnil] at hc
       · cases h
 
-example : TT.resolve ⟨false, false, false, false, false⟩ 0 { base := [], next := 0 } [.parentLoop 1] = .malformed [.parentLoop 1] := rfl
+example : TT.resolve ⟨false, false, false, false, false, false⟩ 0 { base := [], next := 0 } [.parentLoop 1] = .malformed [.parentLoop 1] := rfl
 
 /-- all or nothing: `resolve_conflicts(tt); tt.apply()` either leaves the disk
 exactly as it was (an exception was raised: MalformedTransform or a resolver's
@@ -264,8 +264,8 @@ theorem preview_entry_partial (fl : Flags) (tt : TT) (t : Tid) (p : List String)
     | some k => cases k <;> cases alookup tt.newExec t <;> simp
 
 /-- the code variant of the pinned source for bzr trees -/
-def pinnedBzr : Flags := { git := false, dataByTreePath := false, execByTreePath := false, childrenGet := false, cancelGuarded := false }
-def pinnedGit : Flags := { git := true, dataByTreePath := true, execByTreePath := false, childrenGet := false, cancelGuarded := false }
+def pinnedBzr : Flags := { git := false, dataByTreePath := false, execByTreePath := false, childrenGet := false, cancelGuarded := false, loopGuarded := false }
+def pinnedGit : Flags := { git := true, dataByTreePath := true, execByTreePath := false, childrenGet := false, cancelGuarded := false, loopGuarded := false }
 
 /-- base tree `x` (an executable file) and a directory `d` with a file `d/g` -/
 def witnessTT : TT :=
